@@ -119,14 +119,17 @@ def hexVal (c : Char) : Option Nat :=
   else if 'A'.toNat ≤ c.toNat ∧ c.toNat ≤ 'F'.toNat then some (c.toNat - 55)
   else none
 
+def hexBody : Str → Str
+  | '+' :: r => r
+  | s => s
+def hexFold (ds : List Nat) : Nat := ds.foldl (fun acc d => acc * 16 + d) 0
+
 /-- `u64::from_str_radix(s, 16)`: optional `+`, at least one hex digit, value < 2⁶⁴ -/
 def parseHexU64 (s : Str) : Option Nat :=
-  let body := match s with | '+' :: r => r | s => s
-  if body.isEmpty then none
-  else match body.mapM hexVal with
+  if (hexBody s).isEmpty then none
+  else match (hexBody s).mapM hexVal with
     | none => none
-    | some ds => let v := ds.foldl (fun acc d => acc * 16 + d) 0
-                 if v < 2^64 then some v else none
+    | some ds => if hexFold ds < 2^64 then some (hexFold ds) else none
 
 def parseU64 : Str → Option Nat
   | '+' :: r => parseDigits (2^64 - 1) r
